@@ -173,9 +173,29 @@ func (c *Ctx) edges(f *ssa.Function) (out map[*ssa.Function]bool, user bool) {
 				}
 			}
 			if mi, ok := in.(*ssa.MakeInterface); ok {
-				// methods of a package type that becomes an interface value
+				// methods of a package type that becomes an interface value: the methods of the
+				// target interface; for interface{} only what fmt and friends look for.
 				ms := c.Prog.MethodSets.MethodSet(mi.X.Type())
+				iface, _ := mi.Type().Underlying().(*types.Interface)
 				for i := 0; i < ms.Len(); i++ {
+					name := ms.At(i).Obj().Name()
+					if iface != nil && iface.NumMethods() > 0 {
+						found := false
+						for k := 0; k < iface.NumMethods(); k++ {
+							if iface.Method(k).Name() == name {
+								found = true
+							}
+						}
+						if !found {
+							continue
+						}
+					} else {
+						switch name {
+						case "String", "Error", "GoString", "Format":
+						default:
+							continue
+						}
+					}
 					if fn := c.Prog.MethodValue(ms.At(i)); fn != nil && fn.Pkg == c.Pkg {
 						out[fn] = true
 					}
